@@ -491,6 +491,9 @@ func runC02(a *args) error {
 			st.DistinctNontrivial++
 		}
 	}
+	if a.replay == "" {
+		c02RefusedUpdates(r, st)
+	}
 	if len(cases) > 0 {
 		st.Samples = append(st.Samples, cases[0])
 	}
@@ -501,4 +504,38 @@ func runC02(a *args) error {
 		return err
 	}
 	return writeJSON(a.out+"/stats.json", st)
+}
+
+// c02RefusedUpdates: an update whose merged metadata does not fit the snapshot encoding (a key of 300 bytes, a value of
+// 70000 bytes - entries a replica can meet in its log) is refused at apply time.  A refused operation is a no-op: the
+// item keeps its vector and metadata, Len and BytesSize do not move, the id cannot be inserted again; single and batch.
+func c02RefusedUpdates(r *rng, st *stats) {
+	shapes := []map[string]string{{strings.Repeat("k", 300): "v"}, {"v": strings.Repeat("x", 70000)}}
+	for _, kind := range []string{"update", "bupdate"} {
+		for si, bad := range shapes {
+			p := newSoloPartition(r, 2, pb.Space_Euclidean)
+			id, other := uuidFrom(r).String(), uuidFrom(r).String()
+			p.apply(r, stChange{Kind: "insert", Items: []stItem{{Id: id, Vec: genVec(r, 2), Meta: map[string]string{"a": "1"}}}})
+			p.apply(r, stChange{Kind: "insert", Items: []stItem{{Id: other, Vec: genVec(r, 2)}}})
+			before, cntBefore, _ := p.contents()
+			out := p.apply(r, stChange{Kind: kind, Items: []stItem{{Id: id, Vec: genVec(r, 2), Meta: bad}}})
+			after, cntAfter, _ := p.contents()
+			refused := out.Err != "" || len(out.Errs) > 0
+			again := p.apply(r, stChange{Kind: "insert", Items: []stItem{{Id: id, Vec: genVec(r, 2)}}})
+			p.close()
+			st.count(fmt.Sprintf("refused-update:%s:shape%d:refused=%v", kind, si, refused))
+			what := ""
+			switch {
+			case out.Crash != "" || out.Fatal != "":
+				what = "the apply step failed: " + out.Crash + out.Fatal
+			case refused && (!sameItems(before, after) || cntBefore != cntAfter):
+				what = fmt.Sprintf("the %s was refused, yet the partition changed: %d items / counters %v before, %d items / counters %v after", kind, len(before), cntBefore, len(after), cntAfter)
+			case refused && again.Err != "exists":
+				what = fmt.Sprintf("after the refused %s the id could be inserted again (outcome %q)", kind, again.Err)
+			}
+			if what != "" {
+				st.ImplFailures = append(st.ImplFailures, implFailure{Case: -1, What: fmt.Sprintf("%s of a stored item with metadata beyond the encoding's bounds (shape %d): %s", kind, si, what), Key: "refused-operation-not-a-noop:" + kind, Input: map[string]interface{}{"kind": kind, "shape": si}})
+			}
+		}
+	}
 }
